@@ -214,7 +214,7 @@ Proof.
     + intros (a & b & c & -> & H & Ha & Hc). rewrite (Ha eq_refl), (Hc eq_refl), app_nil_r. exact H.
   - rewrite match_prefix_spec. split.
     + intros (b & c & -> & H). exists [], b, c. repeat split; auto; discriminate.
-    + intros (a & b & c & -> & H & Ha & _). rewrite (Ha eq_refl). eauto.
+    + intros (a & b & c & -> & H & Ha & _). rewrite (Ha eq_refl). exists b, c. auto.
   - rewrite some_suffix_spec. split.
     + intros (a & t & -> & H). apply match_full_spec in H. exists a, t, [].
       rewrite app_nil_r. repeat split; auto; discriminate.
